@@ -63,6 +63,18 @@ func (p *parseContext) Apply() error {
 	return nil
 }
 
+// ApplyFrom applies, and removes, the deferred captures added since "from".
+func (p *parseContext) ApplyFrom(from int) error {
+	pending := p.apply[from:]
+	p.apply = p.apply[:from]
+	for _, apply := range pending {
+		if err := setField(apply.tokens, apply.strct, apply.field, apply.fieldValue); err != nil {
+			return err
+		}
+	}
+	return nil
+}
+
 // Branch accepts the branch as the correct branch.
 func (p *parseContext) Accept(branch *parseContext) {
 	p.apply = append(p.apply, branch.apply...)
